@@ -26,6 +26,7 @@ EXPLANATION = (
     "guards conversions with `is not None` only; (R1.8) Record._pack drops a value only for its explicit arguments. NOT "
     "decided: that msgpack reproduces each value bit-for-bit, integer magnitude, float bits, surrogate escapes, offsets."
     " Also decided (rules added after the fifth blind round): (R1.9) every element typedlist._pack writes is X._pack() with X of the element type (the list mutators are not overridden, raw values can sit in the list), records inside record[] excepted."
+    " Rules added after the sixth blind round: (R1.10) path._unpack / command._unpack construct the class the stored flavour tag names on every return; (R1.11 = R3.5 of C03) readers register every descriptor frame unconditionally."
 )
 RULE_SUMMARY = "instances: sub-type branches, (class, _pack/_unpack) pairs, template loops, struct sites; non-trivial = arity/shape/discriminator set computed"
 
